@@ -1,5 +1,5 @@
 (* Proofs/NamesCase.v -- is_von_name (Model/Names.v, through scan_bibtex_string) against the case
-   rule of the property text (Spec/Names.v token_case). *)
+   rule of the property text (Spec/Names.v token_case), in full (after the repair of FC04a). *)
 From Pybtex Require Import Base.Prelude Base.PyChar Base.PyStr Model.BibtexStr Model.Names Spec.Names.
 
 Lemma upper_not_lower c : is_upper c = true -> is_lower c = false.
@@ -44,61 +44,71 @@ Qed.
 
 Definition case_bool (o : option bool) : bool := match o with Some b => b | None => false end.
 
-Lemma von_scan_token_case : forall s d ts, no_stray_backslash s d = true -> scan_go s d None = Ok ts ->
-  von_scan ts = case_bool (token_case s d).
+Lemma von_scan_token_case : forall s d po ts,
+  (po = true -> match s with b :: _ => N.eqb b c_bslash = false | [] => True end) ->
+  scan_go s d None = Ok ts ->
+  von_scan ts po = case_bool (token_case s d).
 Proof.
-  induction s as [|c t IH]; intros d ts Hn; cbn [scan_go token_case].
+  induction s as [|c t IH]; intros d po ts Hpo; cbn [scan_go token_case].
   - intros [= <-]. reflexivity.
-  - cbn [no_stray_backslash] in Hn. unfold is_lbrace, is_rbrace.
+  - unfold is_lbrace, is_rbrace.
     destruct (N.eqb c c_lbrace) eqn:El.
     + (* opening brace *)
-      assert (Hplain : forall r, no_stray_backslash t (S d) = true ->
+      assert (Ec : c = c_lbrace) by now apply N.eqb_eq. subst c.
+      assert (Hplain : forall r, (d = 0 -> match t with b :: _ => N.eqb b c_bslash = false | [] => True end) ->
                 (do r <- scan_go t (S d) None; Ok (([c_lbrace], S d) :: r)) = Ok r ->
-                von_scan r = case_bool (token_case t (S d))).
-      { intros r Hn'. destruct (scan_go t (S d) None) as [r0| | |] eqn:Sc; cbn [bind]; try discriminate.
-        intros [= <-]. rewrite <- (IH (S d) r0 Hn' Sc).
-        destruct d as [|[|d]]; reflexivity. }
+                von_scan r po = case_bool (token_case t (S d))).
+      { intros r Hd. destruct (scan_go t (S d) None) as [r0| | |] eqn:Sc; cbn [bind]; try discriminate.
+        intros [= <-].
+        assert (Hgo : von_scan (([c_lbrace], S d) :: r0) po = von_scan r0 (Nat.eqb d 0)).
+        { destruct d as [|[|d]]; reflexivity. }
+        rewrite Hgo. apply IH; [|exact Sc]. intros Hd0. apply Nat.eqb_eq in Hd0. now apply Hd. }
       destruct d as [|d].
       * destruct t as [|b t'].
-        -- cbn [Nat.eqb andb]. destruct (Nat.ltb max_level 1); [discriminate|]. apply Hplain. exact Hn.
+        -- cbn [Nat.eqb andb]. destruct (Nat.ltb max_level 1); [discriminate|]. apply Hplain. auto.
         -- destruct (N.eqb b c_bslash) eqn:Eb.
            ++ cbn [Nat.eqb andb].
               destruct (scan_go (b :: t') 0 (Some (0, []))) as [r0| | |] eqn:Sc; cbn [bind]; try discriminate.
               intros [= <-]. apply scan_special in Sc as [rest ->]. cbn [rev app].
               apply N.eqb_eq in Eb. subst b.
               cbn [special_body]. change (N.eqb c_bslash c_lbrace) with false. change (N.eqb c_bslash c_rbrace) with false.
-              cbv iota. cbn [von_scan]. change (N.eqb c_lbrace c_bslash) with false. cbv iota.
-              rewrite N.eqb_refl. cbn [case_bool]. apply special_char_islower_spec.
-           ++ cbn [Nat.eqb andb]. destruct (Nat.ltb max_level 1); [discriminate|]. apply Hplain. exact Hn.
+              cbv iota. cbn [von_scan]. change (N.eqb c_lbrace c_bslash) with false. cbn [andb].
+              change (is_open1 ([c_lbrace], 1)) with true. rewrite N.eqb_refl. cbn [andb case_bool].
+              apply special_char_islower_spec.
+           ++ cbn [Nat.eqb andb]. destruct (Nat.ltb max_level 1); [discriminate|]. apply Hplain. intros _. reflexivity.
       * cbn [Nat.eqb andb]. destruct (Nat.ltb max_level (S (S d))); [discriminate|].
-        assert (Ht : token_case t (S (S d)) = match t with [] => token_case t (S (S d)) | _ :: _ => token_case t (S (S d)) end)
-          by (destruct t; reflexivity).
-        assert (Hn2 : no_stray_backslash t (S (S d)) = true) by (destruct t; exact Hn).
-        intros H. rewrite (Hplain ts Hn2 H). destruct t; reflexivity.
+        intros H. rewrite (Hplain ts ltac:(discriminate) H). destruct t; reflexivity.
     + destruct (N.eqb c c_rbrace) eqn:Er.
       * (* closing brace *)
+        assert (Ec : c = c_rbrace) by now apply N.eqb_eq. subst c.
         destruct d as [|d]; cbn [Nat.ltb Nat.leb andb pred].
         -- destruct (scan_go t 0 None) as [r0| | |] eqn:Sc; cbn [bind]; try discriminate.
-           intros [= <-]. cbn [von_scan]. apply N.eqb_eq in Er. subst c.
-           change (is_alpha c_rbrace) with false. cbv iota. apply IH; assumption.
+           intros [= <-]. cbn [von_scan]. change (is_alpha c_rbrace) with false. cbv iota.
+           apply IH; [discriminate|exact Sc].
         -- change (Nat.ltb 0 (S d)) with true. cbv iota.
            destruct (scan_go t d None) as [r0| | |] eqn:Sc; cbn [bind]; try discriminate.
-           intros [= <-]. rewrite <- (IH d r0 Hn Sc).
-           destruct d as [|[|d]]; reflexivity.
+           intros [= <-].
+           assert (Hgo : von_scan (([c_rbrace], d) :: r0) po = von_scan r0 false).
+           { destruct d as [|[|d]]; reflexivity. }
+           rewrite Hgo. apply IH; [discriminate|exact Sc].
       * (* an ordinary character *)
         rewrite andb_false_l.
         destruct (scan_go t d None) as [r0| | |] eqn:Sc; cbn [bind]; try discriminate.
-        intros [= <-]. cbn [von_scan].
-        destruct d as [|[|d]].
-        -- destruct (is_alpha c); [reflexivity|]. apply IH; assumption.
-        -- destruct (N.eqb c c_bslash); [discriminate|]. apply IH; assumption.
-        -- apply IH; assumption.
+        intros [= <-].
+        assert (Ho : forall l, is_open1 ([c], l) = false).
+        { intros l. unfold is_open1. cbn [fst snd]. rewrite El. apply andb_false_r. }
+        destruct d as [|[|d]]; cbn [von_scan]; rewrite ?Ho.
+        -- destruct (is_alpha c); [reflexivity|]. apply IH; [discriminate|exact Sc].
+        -- assert (Hb : N.eqb c c_bslash && po = false).
+           { destruct po; [|apply andb_false_r]. rewrite (Hpo eq_refl). reflexivity. }
+           rewrite Hb. apply IH; [discriminate|exact Sc].
+        -- apply IH; [discriminate|exact Sc].
 Qed.
 
-Lemma token_case_rule_partial_pf tok b : no_stray_backslash tok 0 = true ->
-  is_von_name tok = Ok b -> b = spec_is_von tok.
+(* each token's case is decided by its first brace-level-0 letter or special character -- in full *)
+Lemma token_case_rule_pf tok b : is_von_name tok = Ok b -> b = spec_is_von tok.
 Proof.
-  destruct tok as [|c t]; [discriminate|]. intros Hn. unfold is_von_name, spec_is_von.
+  destruct tok as [|c t]; [discriminate|]. unfold is_von_name, spec_is_von.
   destruct (is_upper c) eqn:Eu.
   - intros [= <-]. cbn [token_case].
     assert (Ha : is_alpha c = true) by (unfold is_alpha; rewrite Eu; reflexivity).
@@ -108,10 +118,10 @@ Proof.
       assert (Ha : is_alpha c = true) by (unfold is_alpha; rewrite Elo; apply orb_true_r).
       destruct (alpha_not_brace c Ha) as [-> ->]. rewrite Ha. cbn. now rewrite Elo.
     + unfold scan. destruct (scan_go (c :: t) 0 None) as [ts| | |] eqn:Sc; cbn [bind]; try discriminate.
-      intros [= <-]. fold (case_bool (token_case (c :: t) 0)). now apply von_scan_token_case.
+      intros [= <-]. fold (case_bool (token_case (c :: t) 0)).
+      apply von_scan_token_case; [discriminate|exact Sc].
 Qed.
 
-(* the code deviates from the property text: {a\b}c has the lowercase letter c at brace level 0
-   (and no special character), but is_von_name says "not von" *)
-Lemma token_case_rule_refuted_pf : exists tok, is_von_name tok = Ok false /\ spec_is_von tok = true.
-Proof. exists (s2l "{a\b}c"). vm_compute. auto. Qed.
+(* the former counterexample of finding FC04a (fixed by 82be377) *)
+Example fixed_on_counterexample : is_von_name (s2l "{a\b}c") = Ok true.
+Proof. vm_compute. auto. Qed.
